@@ -315,6 +315,43 @@ def _explore(out, tier, seed, facts, replay=None):
             if abs(got_ - want_) > 1e-12:
                 out.violation("quantile-interval-events:%s" % bt, "QuantileCoverage -b %s: obs %r, lower quantile %r, upper quantile %r gives %r; the share of observations inside the documented interval is %r"
                               % (bt, ob_, lo_, hi_, got_, want_), {"bin_type": bt, "obs": ob_, "lower": lo_, "upper": hi_})
+    # event probabilities taken from ensemble members: the probability stored for a threshold t is that of the event 'below=' (x <= t),
+    # so a member EQUAL to t counts, and 'above' gets the complement; missing members belong to no event
+    import tempfile
+    import verif.data
+    import verif.field
+    import verif.input
+    tde = tempfile.mkdtemp(prefix="vfc07e_")
+    try:
+        for rep_ in range(4 if tier == "quick" else 40):
+            nm_ = rng.choice([2, 3, 5])
+            t_ = rng.choice([0.0, 1.0, 2.5, 4.0])
+            rows_ = []
+            for k_ in range(8):
+                mem_ = [rng.choice([t_, t_, t_ - 1.0, t_ + 0.5, t_ + 2.0, None]) for _ in range(nm_)]
+                rows_.append((k_, rng.choice([t_, t_ - 1.0, t_ + 1.0]), mem_))
+            fe_ = os.path.join(tde, "e%d.txt" % rep_)
+            with open(fe_, "w") as f_:
+                f_.write("unixtime leadtime location obs fcst " + " ".join("e%d" % m_ for m_ in range(nm_)) + "\n")
+                for k_, o_, mem_ in rows_:
+                    f_.write("%d 0 1 %r 0 %s\n" % (86400 * k_, o_, " ".join("-999" if v_ is None else repr(v_) for v_ in mem_)))
+            nfals += 1
+            try:
+                d_ = verif.data.Data([verif.input.Text(fe_)])
+                got_ = [float(x) for x in np.asarray(d_.get_scores(verif.field.Threshold(t_), 0)).flatten()]
+            except BaseException as e:
+                out.violation("ensemble-event-probability", "probability of threshold %r from ensemble members raised %s: %s" % (t_, type(e).__name__, e), {"file": open(fe_).read(), "threshold": t_})
+                continue
+            want_ = []
+            for k_, o_, mem_ in rows_:
+                pres_ = [v_ for v_ in mem_ if v_ is not None]
+                if pres_:
+                    want_.append(sum(1 for v_ in pres_ if v_ <= t_) / float(len(pres_)))
+            if len(got_) != len(want_) or any(abs(g_ - w_) > 1e-6 for g_, w_ in zip(got_, want_)):
+                out.violation("ensemble-event-probability", "threshold %r, members per case %r: the probabilities are %r; the share of present members with x <= t is %r (a member equal to t belongs to 'below=')"
+                              % (t_, [m_ for _, _, m_ in rows_], got_, want_), {"file": open(fe_).read(), "threshold": t_})
+    finally:
+        shutil.rmtree(tde, ignore_errors=True)
     stats.update({
         "evaluations": len(exprs) + nfals,
         "distinct_nontrivial": len(distinct),
